@@ -147,6 +147,19 @@ def build_pool(np):
     class Hybrid(UMap, Sequence):
         pass
 
+    # a user hierarchy in which storable types share a plain base class with non-storable objects
+    class Entity:
+        pass
+
+    class Settings(Entity, UMap):
+        pass
+
+    class Track(Entity, USeq):
+        pass
+
+    class Name(Entity, str):
+        pass
+
     def same_name_pair():
         A = type("Twin", (dict,), {})
         B = type("Twin", (), {})
@@ -164,6 +177,10 @@ def build_pool(np):
         ("TwinMap", TwinMap(a=1)), ("TwinObj", TwinObj()),
         ("nd0", np.ndarray(5)), ("nd1", np.ndarray([1, 2])), ("nd1b", np.ndarray([])), ("npnum", np.number(3)), ("npbool", np.bool_(True)),
         ("set", {1}), ("object", object()), ("complex", 1j),
+        ("Entity", Entity()), ("Settings", Settings({"a": 1})), ("Track", Track([1, 2])), ("Name", Name("n")),
+        # rejected values with SEVERAL offences (what is left behind after the first one is reported must not matter)
+        ("bad2", {"row1": {1: "a"}, "row2": {2: "b"}}), ("bad2l", [{1: "a"}, {"fine": 1}, {2.5: "b"}]),
+        ("bad2dot", {"x": {"a.b": 1}, "y": [{"c.d": 2}, {1: 2}]}), ("nested_ok", {"k": [1, {"m": 2}]}),
     ]
     return pool
 
@@ -264,7 +281,8 @@ def warm_vs_fresh(seed, npairs, nperm):
     disagreements, evals, samples = [], 0, []
     for k in range(npairs):
         names_ = [n for n, _ in pool]
-        ambiguous = [names_.index(n) for n in ("Hybrid", "TwinMap", "TwinObj", "nd0", "nd1", "nd1b", "UMap", "USeq", "deque", "range", "mappingproxy")]
+        ambiguous = [names_.index(n) for n in ("Hybrid", "TwinMap", "TwinObj", "nd0", "nd1", "nd1b", "UMap", "USeq", "deque", "range", "mappingproxy",
+                                               "Settings", "Track", "Name", "nested_ok", "dict")]
         stores = ["dict_set", "list_append", "attr_set", "from_base", "update", "reset_list"]
         a = rnd.choice(stores) if rnd.random() < 0.6 else rnd.choice(ACTIONS)
         vi = rnd.choice(ambiguous) if rnd.random() < 0.55 else rnd.randrange(len(pool))
@@ -275,7 +293,12 @@ def warm_vs_fresh(seed, npairs, nperm):
             hist.insert(rnd.randrange(len(hist) + 1), (rnd.choice(stores[:5]), names_.index(rnd.choice(["dict", "dict2", "OrderedDict"]))))
         # bias: warm up with a value of the same type but another shape / a same-named type
         twins = {"nd0": ["nd1", "nd1b"], "nd1": ["nd0"], "nd1b": ["nd0"], "TwinMap": ["TwinObj"], "TwinObj": ["TwinMap"],
-                 "dict": ["dict2"], "list": ["list2"], "str": ["str2"]}
+                 "dict": ["dict2"], "list": ["list2"], "str": ["str2"],
+                 "Settings": ["Entity"], "Track": ["Entity"], "Name": ["Entity"]}
+        if rnd.random() < 0.35:
+            # a value with several offences is rejected somewhere in the history
+            hist.insert(rnd.randrange(len(hist) + 1), (rnd.choice(["v_rsk", "v_nodot", "v_attr", "dict_set", "list_append", "attr_set", "update"]),
+                                                       names_.index(rnd.choice(["bad2", "bad2l", "bad2dot"]))))
         name = pool[vi][0]
         if name in twins and rnd.random() < 0.7:
             tw = rnd.choice(twins[name])
